@@ -151,7 +151,7 @@ def tensor_digest(t) -> str:
     h.update(str(tt.dtype).encode())
     h.update(str(tuple(tt.shape)).encode())
     if tt.numel():
-        h.update(tt.reshape(-1).view(torch.uint8).numpy().tobytes())
+        h.update(tt.numpy().tobytes())
     return h.hexdigest()[:24]
 
 
